@@ -164,6 +164,33 @@ func (mk *TimeBucketKey) GetTimeFrame() (tf *utils.Timeframe, err error) {
 	return tf, nil
 }
 
+// ValidKeyItem reports whether item can be used as one directory name of a bucket key: it is not empty,
+// not "." or "..", and contains no path separator or NUL byte.
+func ValidKeyItem(item string) bool {
+	if item == "" || item == "." || item == ".." {
+		return false
+	}
+	for i := 0; i < len(item); i++ {
+		switch item[i] {
+		case '/', '\\', 0:
+			return false
+		}
+	}
+	return true
+}
+
+// Validate returns an error unless every item of the key is a valid directory name, so that the paths
+// built from the key stay below the root directory.
+func (mk *TimeBucketKey) Validate() error {
+	items := mk.GetItems()
+	for _, item := range items {
+		if !ValidKeyItem(item) {
+			return fmt.Errorf("invalid item %q in time bucket key %q", item, mk.key)
+		}
+	}
+	return nil
+}
+
 func (mk *TimeBucketKey) GetPathToYearFiles(rootDir string) string {
 	return filepath.Join(rootDir, mk.GetItemKey())
 }
